@@ -30,21 +30,10 @@ macro_rules! emf_harness {
 }
 pub(crate) use emf_harness;
 
-/// position pattern: `SYM` = kind chosen by the solver among {Unsigned(any u64), Floating(any f64)} (covers NaN and
-/// +-inf placements symbolically); 2..=5 = one concrete `Repeated` shape (see kernel::obs_of_kind). Repeated shapes are
-/// case-split into separate harnesses because a solver-chosen shape makes `total / occurrences` a symbolic
-/// 64-bit float division, which does not finish (measured: > 400 s for two positions).
-pub const SYM: u8 = 0;
 pub const ABSENT: u8 = 255;
 
 fn obs_for(p: u8) -> metrique_writer_core::Observation {
-    if p == SYM {
-        let k: u8 = kani::any();
-        kani::assume(k < 2);
-        obs_of_kind(k)
-    } else {
-        obs_of_kind(p)
-    }
+    obs_of_kind(p)
 }
 
 /// the observation-list oracle shared by all list harnesses
